@@ -39,17 +39,25 @@ RebuildFail(c) ==
   ELSE IF c.immutable # 1 THEN "Immutable"
   ELSE ""
 
+\* an item pickled in ONE interpreter process (its hash taken before) and loaded in ANOTHER (different string-hash
+\* seed) is equal to the item built there, hashes like it and is found in a set holding it
+XPickleFail(c) ==
+  IF c.loaded # c.item THEN "PickleAcrossProcesses"
+  ELSE IF c.eq # 1 \/ c.hash_eq # 1 \/ c.in_set # 1 THEN "PickleAcrossProcessesEqualHash"
+  ELSE ""
+
 HistoryFail(c) ==
   LET badk == {k \in 1..Len(c.ops) : c.ops[k].res # c.ops[k].want}
   IN IF badk = {} THEN "" ELSE "CacheInvisible"
 
 Failures(c) ==
-  LET f == CASE c.rec = "matrix" -> MatrixFail(c) [] c.rec = "rebuild" -> RebuildFail(c) [] OTHER -> HistoryFail(c)
+  LET f == CASE c.rec = "matrix" -> MatrixFail(c) [] c.rec = "rebuild" -> RebuildFail(c) [] c.rec = "xpickle" -> XPickleFail(c)
+                [] OTHER -> HistoryFail(c)
   IN IF f = "" THEN <<>>
      ELSE <<[id |-> c.id, rec |-> c.rec, clause |-> f,
              detail |-> IF c.rec = "history"
                         THEN ToString(c.ops[CHOOSE k \in 1..Len(c.ops) : c.ops[k].res # c.ops[k].want])
-                        ELSE IF c.rec = "rebuild" THEN ToString(c.item) ELSE ""]>>
+                        ELSE IF c.rec \in {"rebuild", "xpickle"} THEN ToString(c.item) ELSE ""]>>
 
 VARIABLES i, bad
 B == INSTANCE Batch
